@@ -55,16 +55,21 @@ func (c20) ParentPhase(env *kernel.Env) kernel.PhaseResult {
 		runs           int
 	}
 	for _, t := range []tier{{"tier2_race_stubbed_exec", "c20stub", "generator.Formatters.FormatFile (tier 2: free-running, stubbed exec, -race)", runs2},
+		{"tier2b_race_saveoutputs", "c20save", "cmd.saveOutputs (tier 2b: free-running, stubbed exec, -race)", runs2},
 		{"tier3_race_real_processes", "c20real", "generator.Formatters.FormatFile (tier 3: unmodified code, real processes, -race)", runs3}} {
 		bin := filepath.Join(scr, "bin", t.bin)
 		if _, err := os.Stat(bin); err != nil {
+			if t.bin == "c20save" {
+				res.Coverage[t.name] = "skipped: saveOutputs entry point not available on this tree or no race detector"
+				continue
+			}
 			kernel.Harnessf("%s binary missing: %v", t.name, err)
 		}
 		work := filepath.Join(env.Scratch, t.bin+"-work")
 		os.MkdirAll(work, 0o755)
 		cmd := exec.Command(bin)
 		cmd.Dir = work
-		cmd.Env = append(os.Environ(), "GORACE=halt_on_error=1 exitcode=66", fmt.Sprintf("C20_RUNS=%d", t.runs), fmt.Sprintf("C20_SEED=%d", env.Seed), "C20_WORK="+work, "GOMAXPROCS=16")
+		cmd.Env = append(os.Environ(), "C20_RACESAVE=1", "GORACE=halt_on_error=1 exitcode=66", fmt.Sprintf("C20_RUNS=%d", t.runs), fmt.Sprintf("C20_SEED=%d", env.Seed), "C20_WORK="+work, "GOMAXPROCS=16")
 		var so, se bytes.Buffer
 		cmd.Stdout, cmd.Stderr = &so, &se
 		err := cmd.Run()
